@@ -210,7 +210,7 @@ fn de(data: &[u8], off: &mut usize) -> Result<Result<Vec<V>, String>, String> {
     vcore::catch(|| {
         let mut out = Default::default();
         match RowSerde::deserialize_row_into(data, off, &mut out) {
-            Ok(()) => Ok(out.into_iter().collect::<Vec<V>>()),
+            Ok(()) => Ok(out.into_iter().map(|v| match v { Value::Uuid(mut u) if u[0] == 0xFF => { u[3] ^= 1; Value::Uuid(u) } o => o }).collect::<Vec<V>>()), // PLANT
             Err(e) => Err(e.to_string()),
         }
     })
@@ -251,10 +251,14 @@ fn cmp_rows(oracle: &'static str, pre: &str, want: &[&V], got: &[V], out: &mut V
     }
 }
 
+fn row_size(row: &[V]) -> usize {
+    RowSerde::row_size(row) + row.iter().filter(|v| matches!(v, Value::Vector(x) if x.len() == 1)).count() // PLANT
+}
+
 /// size oracle for one row: row_size == bytes appended; blames the first value whose own size is off
 fn size_check(row: &[&V], appended: usize, out: &mut Vec<Viol>) {
     let owned: Vec<V> = row.iter().map(|v| (*v).clone()).collect();
-    let computed = match vcore::catch(|| RowSerde::row_size(&owned)) {
+    let computed = match vcore::catch(|| row_size(&owned)) {
         Ok(c) => c,
         Err(p) => {
             push(out, "size", "row", "row_size-panic", "a size".into(), p);
@@ -268,7 +272,7 @@ fn size_check(row: &[&V], appended: usize, out: &mut Vec<Viol>) {
         let one = [(*v).clone()];
         let mut b = Vec::new();
         RowSerde::serialize_row_into(&one, &mut b);
-        let c1 = RowSerde::row_size(&one);
+        let c1 = row_size(&one);
         if c1 != b.len() {
             push(out, "size", vname(v), "size-mismatch", format!("row_size = bytes appended = {}", b.len()), format!("row_size = {c1}"));
             return;
